@@ -167,6 +167,18 @@ def parseFlags (w : String) : Cli.Flags :=
 def parseMode (w : String) : Cli.Mode :=
   if w == "hybrid" then .hybrid else if w == "biodivine" then .biodivine else .naive
 
+/-- the prescribed lines of one output section: brute-force specification up to 7 statements,
+beyond that the verified model on the original framework (see `modelAnswer`) -/
+def sectionLines (a : AdfSt) (sec : Cli.Section) : List String :=
+  if a.n ≤ 7 then (Cli.specSection a.n a.tts sec).map Spec.showI3 else
+  let orig := buildNative a.n a.fms.toList
+  let vs : List (List Nat) := match sec with
+    | .grd => [(groundedLoop StoreRA (a.n + 1) orig.1 orig.2).2]
+    | .com => (completeAll orig.1 a.n orig.2).2.2
+    | .twoval => (SM.ngSearch .simple 2000000 orig.1 a.n orig.2 false).2.1
+    | _ => (stableAll orig.1 a.n orig.2).2
+  vs.map tfu
+
 /-- `clirun`: expected stdout of the binary, every line rendered in ORIGINAL statement order -/
 def cliRun (a : AdfSt) (mode flags heu : String) (perm order : List Nat) : String × String :=
   let n := a.n
@@ -185,8 +197,7 @@ def cliRun (a : AdfSt) (mode flags heu : String) (perm order : List Nat) : Strin
   let unordered := f.stmrew || f.stmrew2
   let seq := if unordered then Spec.sortStrings lines else lines
   let j := fun (xs : List String) => if xs.isEmpty then "-" else joinWith "," xs
-  let tts := a.tts
-  let specLines := (Cli.sections m f).flatMap (fun sec => (Cli.specSection n tts sec).map Spec.showI3)
+  let specLines := (Cli.sections m f).flatMap (sectionLines a)
   (s!"exit=0 wellformed=1 lines={j seq}", s!"exit=0 set={j (Spec.sortStrings specLines)}")
 
 def adfStep (a : AdfSt) (l : String) (ws : List String) : Option (List String × AdfSt) :=
@@ -213,8 +224,7 @@ def adfStep (a : AdfSt) (l : String) (ws : List String) : Option (List String ×
     -- specification's answer for the k-th section (as a multiset)
     let m := parseMode mode
     let f := parseFlags flags
-    let tts := a.tts
-    let blocks := (Cli.sections m f).map (fun sec => Spec.sortStrings ((Cli.specSection a.n tts sec).map Spec.showI3))
+    let blocks := (Cli.sections m f).map (fun sec => Spec.sortStrings (sectionLines a sec))
     let ls := splitOnNE lines ","
     let verdict := Id.run do
       if code != "0" then return "violated exit-status"
